@@ -296,7 +296,9 @@ def s15_network(ctx):
         order = rng.sample(range(len(RANGE_SETS)), rng.randint(2, 3))
         for j, ri in enumerate(order):
             ranges, label = RANGE_SETS[ri]
-            names = [f"{'abc'[j]}{i}" for i in range(len(ranges))]
+            # set names as users choose them: one character ("1", "2", ... -- the package's own default style) in every other history, longer ones otherwise;
+            # the null set's label "-1" is longer than a one-character name
+            names = [f"{'abc'[j]}{i}" for i in range(len(ranges))] if hi % 2 else ["123456789ABCDEFGHIJ"[i + 4 * j] for i in range(len(ranges))]
             mode = rng.choice(["notrunc", "notrunc", "trunc_all", "trunc_cut"])
             area_box = (-30.0, -28.0, 31.0, 27.0) if mode == "trunc_cut" else (-100.0, -100.0, 100.0, 100.0)
             steps.append(([list(map(float, r)) for r in ranges], names, area_box, mode != "notrunc"))
